@@ -47,7 +47,17 @@ type ttObs struct {
 var ttMoves = []Move{MoveNone, CreateMove(SqE2, SqE4, Normal, PtNone), CreateMove(SqA7, SqA8, Promotion, Queen), CreateMove(SqE1, SqG1, Castling, PtNone)}
 
 // model key <<slot index, tag>> -> engine key; the table of 1 MB masks the lower 16 bits
-func ttKey(i, tag int) position.Key { return position.Key(uint64(tag)<<40 | uint64(i)) }
+// Which real slot a model slot stands for varies from behaviour to behaviour: the first slots, and slots at and around the
+// boundaries of the 32 chunks in which AgeEntries walks the table in parallel (65,536 entries / 32 = 2,048), the middle, the end.
+var ttSlotMaps = [][]uint64{
+	{0, 1, 2, 3, 4, 5, 6, 7},
+	{2048, 2047, 4096, 65535, 2049, 6144, 1, 0},
+	{63488, 32768, 1, 6144, 63487, 63489, 34816, 65534},
+	{2049, 34816, 65534, 63487, 2048, 4095, 4096, 4097},
+}
+var ttSlotMap = ttSlotMaps[0]
+
+func ttKey(i, tag int) position.Key { return position.Key(uint64(tag)<<40 | ttSlotMap[i]) }
 
 func opInts(op []json.RawMessage) (name string, a []int) {
 	json.Unmarshal(op[0], &name)
@@ -89,6 +99,7 @@ func ttReplay(args []string) error {
 		ch := chains[sel]
 		sort.Slice(ch, func(a, b int) bool { return ch[a].N < ch[b].N })
 		table := tt.NewTtTable(1)
+		ttSlotMap = ttSlotMaps[sel%len(ttSlotMaps)]
 		res.count("C11.behaviours", 1)
 		var histOps [][]int
 		var histNames []string
